@@ -4,8 +4,9 @@ From ZV Require Export Framing.ReadConn.
 (* what the stream's bookkeeping distinguishes in an item (reply_stream.rs:90-106) *)
 Inductive ikind := Cont   (* Ok(Ok(reply)) with continues == Some(true) *)
                  | Final  (* Ok(Ok(reply)) otherwise *)
-                 | MErr   (* Ok(Err(method error)) *)
-                 | Fatal. (* Err(_): decode error, service-level error, transport error *)
+                 | MErr   (* the call's error reply: Ok(Err(method error)), and since the repair of
+                             C06.service_error_ends_chain also Err(Error::VarlinkService(_)) *)
+                 | Fatal. (* any other Err(_): decode error, transport error *)
 
 Section Chain.
 Variables (step limit : N).
